@@ -12,6 +12,11 @@ from mpf.core.bcp.bcp_client import BaseBcpClient
 BYTE_MARKER = b'&bytes='
 
 
+def _has_byte_marker(message: bytes) -> bool:
+    """Return true if the line ends with the payload marker and a byte count."""
+    return message.rpartition(BYTE_MARKER)[1] != b'' and message.rpartition(BYTE_MARKER)[2].isdigit()
+
+
 class MpfJSONEncoder(json.JSONEncoder):
 
     """Encoder which by default encodes to string."""
@@ -149,8 +154,9 @@ class AsyncioBcpClientSocket():
             # strip newline
             message = message[0:-1]
 
-            if BYTE_MARKER in message:
-                message, bytes_needed = message.split(BYTE_MARKER)
+            # the marker only announces a payload when it ends the line. inside a (json) parameter it is just text
+            if _has_byte_marker(message):
+                message, _, bytes_needed = message.rpartition(BYTE_MARKER)
                 bytes_needed = int(bytes_needed)
 
                 raw_bytes = await self._receiver.readexactly(bytes_needed)
@@ -307,8 +313,9 @@ class BCPClientSocket(BaseBcpClient):
             # strip newline
             message = message[0:-1]
 
-            if BYTE_MARKER in message:
-                message, bytes_needed = message.split(b'&bytes=')
+            # the marker only announces a payload when it ends the line. inside a (json) parameter it is just text
+            if _has_byte_marker(message):
+                message, _, bytes_needed = message.rpartition(BYTE_MARKER)
                 bytes_needed = int(bytes_needed)
 
                 rawbytes = await self._receiver.readexactly(bytes_needed)
